@@ -1,9 +1,461 @@
 package main
 
-func runSpawn(casesPath, tracePath string) { fatal(errNotYet) }
+// C37: spawn real actors with every configuration TLC enumerated and carry the
+// configuration over the two real wire paths:
+//
+//	relocate  A.Spawn(opts) -> PID.toSerialize -> proto.Marshal / Unmarshal ->
+//	          B.wireSpawnOptions -> B.Spawn            (what recreateActorFromWire does)
+//	remote    A.Spawn(opts + WithHostAndPort(B)) -> remoteclient.RemoteSpawn -> TCP loopback ->
+//	          B.remoteSpawnHandler -> B.Spawn
+//
+// and record what the local PID and the copy actually run with. Nothing is judged here.
 
-var errNotYet = errString("spawn mode not built yet")
+import (
+	"context"
+	"fmt"
+	"net"
+	"runtime"
+	"sort"
+	"time"
 
-type errString string
+	"google.golang.org/protobuf/proto"
 
-func (e errString) Error() string { return string(e) }
+	"github.com/tochemey/goakt/v4/actor"
+	gerrors "github.com/tochemey/goakt/v4/errors"
+	"github.com/tochemey/goakt/v4/extension"
+	"github.com/tochemey/goakt/v4/internal/internalpb"
+	"github.com/tochemey/goakt/v4/log"
+	"github.com/tochemey/goakt/v4/passivation"
+	"github.com/tochemey/goakt/v4/reentrancy"
+	"github.com/tochemey/goakt/v4/remote"
+	"github.com/tochemey/goakt/v4/supervisor"
+	"github.com/tochemey/goakt/v4/verifharness/vtrace"
+)
+
+// ---- configuration as printed by Gen_SpawnConfig.tla --------------------------------------
+
+type supCfg struct {
+	Set      bool   `json:"set"`
+	Strategy string `json:"strategy"`
+	Rules    struct {
+		Kind string     `json:"kind"`
+		D    string     `json:"d"`
+		M    [][]string `json:"m"`
+	} `json:"rules"`
+	Retry struct {
+		Set     bool  `json:"set"`
+		Max     int   `json:"max"`
+		Timeout int64 `json:"timeout"`
+	} `json:"retry"`
+	Backoff struct {
+		Set     bool  `json:"set"`
+		Initial int64 `json:"initial"`
+		Max     int64 `json:"max"`
+		Reset   int64 `json:"reset"`
+	} `json:"backoff"`
+}
+
+type spawnCase struct {
+	Sup  supCfg `json:"sup"`
+	Pass struct {
+		Kind string `json:"kind"`
+		Ms   int64  `json:"ms"`
+		N    int    `json:"n"`
+	} `json:"pass"`
+	Reent struct {
+		Set  bool   `json:"set"`
+		Mode string `json:"mode"`
+		Max  int    `json:"max"`
+	} `json:"reent"`
+	Stash bool `json:"stash"`
+	Role  struct {
+		Set bool   `json:"set"`
+		V   string `json:"v"`
+	} `json:"role"`
+	Deps        []string `json:"deps"`
+	InitTimeout int64    `json:"initTimeout"`
+	Relocatable bool     `json:"relocatable"`
+}
+
+// ---- the actor, its dependencies and the user error types ------------------------------------
+
+type probeActor struct{}
+
+func (*probeActor) PreStart(*actor.Context) error { return nil }
+func (*probeActor) Receive(*actor.ReceiveContext) {}
+func (*probeActor) PostStop(*actor.Context) error { return nil }
+
+type probeDep struct {
+	Id      string
+	Payload string
+}
+
+func (d *probeDep) ID() string                     { return d.Id }
+func (d *probeDep) MarshalBinary() ([]byte, error) { return []byte(d.Id + "=" + d.Payload), nil }
+func (d *probeDep) UnmarshalBinary(b []byte) error {
+	for i := range b {
+		if b[i] == '=' {
+			d.Id, d.Payload = string(b[:i]), string(b[i+1:])
+			return nil
+		}
+	}
+	return fmt.Errorf("probeDep: malformed %q", b)
+}
+
+type errA struct{}
+
+func (*errA) Error() string { return "errA" }
+
+type errB struct{}
+
+func (*errB) Error() string { return "errB" }
+
+var errorValues = map[string]error{
+	"ErrA":          &errA{},
+	"ErrB":          &errB{},
+	"PanicError":    &gerrors.PanicError{},
+	"PanicNilError": &runtime.PanicNilError{},
+	"AnyError":      new(gerrors.AnyError),
+}
+
+// real error-type strings (supervisor.errorType) -> model names
+var errorNames = map[string]string{
+	"main.errA":             "ErrA",
+	"main.errB":             "ErrB",
+	"errors.PanicError":     "PanicError",
+	"runtime.PanicNilError": "PanicNilError",
+	"errors.AnyError":       "AnyError",
+}
+
+var directives = map[string]supervisor.Directive{
+	"Stop": supervisor.StopDirective, "Resume": supervisor.ResumeDirective,
+	"Restart": supervisor.RestartDirective, "Escalate": supervisor.EscalateDirective,
+}
+
+var modes = map[string]reentrancy.Mode{"Off": reentrancy.Off, "AllowAll": reentrancy.AllowAll, "StashNonReentrant": reentrancy.StashNonReentrant}
+var modeNames = map[int]string{int(reentrancy.Off): "Off", int(reentrancy.AllowAll): "AllowAll", int(reentrancy.StashNonReentrant): "StashNonReentrant"}
+
+func msd(v int64) time.Duration { return time.Duration(v) * time.Millisecond }
+
+// ms converts a real duration to the model's unit; -1ns is the supervisor's sentinel.
+func ms(d int64) int64 {
+	if d == -1 {
+		return -1
+	}
+	if d%int64(time.Millisecond) != 0 {
+		fatal(fmt.Errorf("duration %dns is not a whole number of milliseconds", d))
+	}
+	return d / int64(time.Millisecond)
+}
+
+func buildOptions(c *spawnCase) []actor.SpawnOption {
+	var opts []actor.SpawnOption
+	if c.Sup.Set {
+		strategy := supervisor.OneForOneStrategy
+		if c.Sup.Strategy == "OneForAll" {
+			strategy = supervisor.OneForAllStrategy
+		}
+		so := []supervisor.SupervisorOption{supervisor.WithStrategy(strategy)}
+		switch c.Sup.Rules.Kind {
+		case "any":
+			so = append(so, supervisor.WithAnyErrorDirective(directives[c.Sup.Rules.D]))
+		case "typed":
+			for _, r := range c.Sup.Rules.M {
+				ev, ok := errorValues[r[0]]
+				if !ok {
+					fatal(fmt.Errorf("unknown error type %q", r[0]))
+				}
+				so = append(so, supervisor.WithDirective(ev, directives[r[1]]))
+			}
+		}
+		if c.Sup.Retry.Set {
+			so = append(so, supervisor.WithRetry(uint32(c.Sup.Retry.Max), msd(c.Sup.Retry.Timeout)))
+		}
+		if c.Sup.Backoff.Set {
+			so = append(so, supervisor.WithExponentialBackoff(msd(c.Sup.Backoff.Initial), msd(c.Sup.Backoff.Max), msd(c.Sup.Backoff.Reset)))
+		}
+		opts = append(opts, actor.WithSupervisor(supervisor.NewSupervisor(so...)))
+	}
+	switch c.Pass.Kind {
+	case "TimeBased":
+		opts = append(opts, actor.WithPassivationStrategy(passivation.NewTimeBasedStrategy(msd(c.Pass.Ms))))
+	case "MessagesCountBased":
+		opts = append(opts, actor.WithPassivationStrategy(passivation.NewMessageCountBasedStrategy(c.Pass.N)))
+	case "LongLived":
+		opts = append(opts, actor.WithPassivationStrategy(passivation.NewLongLivedStrategy()))
+	}
+	if c.Reent.Set {
+		opts = append(opts, actor.WithReentrancy(reentrancy.New(reentrancy.WithMode(modes[c.Reent.Mode]), reentrancy.WithMaxInFlight(c.Reent.Max))))
+	}
+	if c.Stash {
+		opts = append(opts, actor.WithStashing())
+	}
+	if c.Role.Set {
+		opts = append(opts, actor.WithRole(c.Role.V))
+	}
+	if len(c.Deps) > 0 {
+		deps := make([]extension.Dependency, 0, len(c.Deps))
+		for _, id := range c.Deps {
+			deps = append(deps, &probeDep{Id: id, Payload: "payload-of-" + id})
+		}
+		opts = append(opts, actor.WithDependencies(deps...))
+	}
+	if c.InitTimeout > 0 {
+		opts = append(opts, actor.WithInitTimeout(msd(c.InitTimeout)))
+	}
+	if !c.Relocatable {
+		opts = append(opts, actor.WithRelocationDisabled())
+	}
+	return opts
+}
+
+func ruleName(t string) string {
+	if n, ok := errorNames[t]; ok {
+		return n
+	}
+	return t
+}
+
+func directiveName(d supervisor.Directive) string { return d.String() }
+
+// observe renders what a PID runs with in the vocabulary of SpawnConfig.tla.
+func observe(pid *actor.PID) map[string]any {
+	o, err := actor.VerifObserveSpawn(pid)
+	if err != nil {
+		fatal(err)
+	}
+	rules := [][]string{}
+	for _, r := range o.Rules {
+		rules = append(rules, []string{ruleName(r.ErrorType), directiveName(r.Directive)})
+	}
+	sup := map[string]any{"set": o.HasSupervisor, "strategy": o.Strategy, "maxRetries": o.MaxRetries, "timeout": ms(o.RetryTimeout),
+		"initial": ms(o.InitialDelay), "maxDelay": ms(o.MaxDelay), "reset": ms(o.ResetAfter), "rules": rules}
+	kind := o.Passivation
+	if kind == "" {
+		kind = "none"
+	}
+	ids := []string{}
+	for id := range o.Dependencies {
+		ids = append(ids, id)
+	}
+	sort.Strings(ids)
+	payloads := [][]string{}
+	for _, id := range ids {
+		payloads = append(payloads, []string{id, string(o.Dependencies[id])})
+	}
+	role := "none"
+	if o.HasRole {
+		role = o.Role
+	}
+	mode, ok := modeNames[o.Mode]
+	if !ok {
+		mode = fmt.Sprint(o.Mode)
+	}
+	init := int64(0)
+	if o.HasInitTimeout {
+		init = ms(o.InitTimeout)
+	}
+	return map[string]any{
+		"sup":   sup,
+		"pass":  map[string]any{"kind": kind, "ms": ms(o.PassivateAfter), "n": o.MaxMessages},
+		"reent": map[string]any{"set": o.HasReentrancy, "mode": mode, "max": o.MaxInFlight},
+		"stash": o.Stash, "role": role, "deps": ids, "depsPayload": payloads,
+		"initTimeout": init, "effInit": ms(o.EffInitTimeout), "relocatable": o.Relocatable, "msgCountFast": o.MsgCountFastPath,
+	}
+}
+
+var strategyNames = map[internalpb.SupervisorStrategy]string{
+	internalpb.SupervisorStrategy_SUPERVISOR_STRATEGY_ONE_FOR_ONE: "OneForOne",
+	internalpb.SupervisorStrategy_SUPERVISOR_STRATEGY_ONE_FOR_ALL: "OneForAll",
+}
+var wireDirectives = map[internalpb.SupervisorDirective]string{
+	internalpb.SupervisorDirective_SUPERVISOR_DIRECTIVE_STOP:     "Stop",
+	internalpb.SupervisorDirective_SUPERVISOR_DIRECTIVE_RESUME:   "Resume",
+	internalpb.SupervisorDirective_SUPERVISOR_DIRECTIVE_RESTART:  "Restart",
+	internalpb.SupervisorDirective_SUPERVISOR_DIRECTIVE_ESCALATE: "Escalate",
+}
+var wireModes = map[internalpb.ReentrancyMode]string{
+	internalpb.ReentrancyMode_REENTRANCY_MODE_OFF:                 "Off",
+	internalpb.ReentrancyMode_REENTRANCY_MODE_ALLOW_ALL:           "AllowAll",
+	internalpb.ReentrancyMode_REENTRANCY_MODE_STASH_NON_REENTRANT: "StashNonReentrant",
+}
+
+// wireView projects the decoded internalpb.Actor record (after a real Marshal/Unmarshal).
+func wireView(a *internalpb.Actor) map[string]any {
+	pass := map[string]any{"kind": "none", "ms": int64(0), "n": int64(0)}
+	if p := a.GetPassivationStrategy(); p != nil {
+		switch s := p.GetStrategy().(type) {
+		case *internalpb.PassivationStrategy_TimeBased:
+			pass = map[string]any{"kind": "TimeBased", "ms": ms(int64(s.TimeBased.GetPassivateAfter().AsDuration())), "n": int64(0)}
+		case *internalpb.PassivationStrategy_MessagesCountBased:
+			pass = map[string]any{"kind": "MessagesCountBased", "ms": int64(0), "n": s.MessagesCountBased.GetMaxMessages()}
+		case *internalpb.PassivationStrategy_LongLived:
+			pass = map[string]any{"kind": "LongLived", "ms": int64(0), "n": int64(0)}
+		}
+	}
+	sup := map[string]any{"set": false, "strategy": "", "max_retries": 0, "timeout": int64(0), "timeoutSet": false, "any": "none", "directives": [][]string{}}
+	if s := a.GetSupervisor(); s != nil {
+		dirs := [][]string{}
+		for _, r := range s.GetDirectives() {
+			dirs = append(dirs, []string{ruleName(r.GetErrorType()), wireDirectives[r.GetDirective()]})
+		}
+		anyd := "none"
+		if s.AnyErrorDirective != nil {
+			anyd = wireDirectives[s.GetAnyErrorDirective()]
+		}
+		t := int64(0)
+		if s.GetTimeout() != nil {
+			t = ms(int64(s.GetTimeout().AsDuration()))
+		}
+		sup = map[string]any{"set": true, "strategy": strategyNames[s.GetStrategy()], "max_retries": s.GetMaxRetries(),
+			"timeout": t, "timeoutSet": s.GetTimeout() != nil, "any": anyd, "directives": dirs}
+	}
+	reent := map[string]any{"set": false, "mode": "Off", "max_in_flight": 0}
+	if r := a.GetReentrancy(); r != nil {
+		reent = map[string]any{"set": true, "mode": wireModes[r.GetMode()], "max_in_flight": r.GetMaxInFlight()}
+	}
+	ids := []string{}
+	for _, d := range a.GetDependencies() {
+		ids = append(ids, d.GetId())
+	}
+	sort.Strings(ids)
+	init := int64(0)
+	if a.GetInitTimeout() != nil {
+		init = ms(int64(a.GetInitTimeout().AsDuration()))
+	}
+	return map[string]any{"relocatable": a.GetRelocatable(), "pass": pass, "deps": ids, "enable_stash": a.GetEnableStash(),
+		"role": a.GetRole(), "supervisor": sup, "reentrancy": reent, "init_timeout": init, "bytes": proto.Size(a)}
+}
+
+func freePort() int {
+	l, err := net.Listen("tcp", "127.0.0.1:0")
+	if err != nil {
+		fatal(err)
+	}
+	defer l.Close()
+	return l.Addr().(*net.TCPAddr).Port
+}
+
+func newSystem(ctx context.Context, name string, port int) actor.ActorSystem {
+	sys, err := actor.NewActorSystem(name, actor.WithLogger(log.DiscardLogger), actor.WithRemote(remote.NewConfig("127.0.0.1", port)))
+	if err != nil {
+		fatal(err)
+	}
+	if err := sys.Start(ctx); err != nil {
+		fatal(err)
+	}
+	return sys
+}
+
+func runSpawn(casesPath, tracePath string) {
+	cases, err := vtrace.ReadLines[spawnCase](casesPath)
+	if err != nil {
+		fatal(err)
+	}
+	rawCases, err := vtrace.ReadLines[map[string]any](casesPath)
+	if err != nil {
+		fatal(err)
+	}
+	w, err := vtrace.Create(tracePath)
+	if err != nil {
+		fatal(err)
+	}
+	ctx := context.Background()
+	portA, portB := freePort(), freePort()
+	sysA := newSystem(ctx, "verifA", portA)
+	sysB := newSystem(ctx, "verifB", portB)
+	// the hosting node knows the actor type and the dependency type (WithTypes / Inject in an application)
+	if err := sysB.Register(ctx, &probeActor{}); err != nil {
+		fatal(err)
+	}
+	if err := sysB.Inject(&probeDep{}); err != nil {
+		fatal(err)
+	}
+
+	var nReloc, nRemote, nErr int
+	stop := func(pids ...*actor.PID) {
+		for _, p := range pids {
+			if p != nil {
+				_ = p.Shutdown(ctx)
+			}
+		}
+	}
+	for i := range cases {
+		c := &cases[i]
+		local, err := sysA.Spawn(ctx, fmt.Sprintf("l%d", i), &probeActor{}, buildOptions(c)...)
+		if err != nil {
+			fatal(fmt.Errorf("case %d: local spawn: %w", i, err))
+		}
+		obsLocal := observe(local)
+
+		if c.Relocatable {
+			line := map[string]any{"path": "relocate", "cfg": rawCases[i], "local": obsLocal, "err": ""}
+			var copyPID *actor.PID
+			err := func() error {
+				record, err := actor.VerifToSerialize(local)
+				if err != nil {
+					return err
+				}
+				bytea, err := proto.Marshal(record)
+				if err != nil {
+					return err
+				}
+				props := new(internalpb.Actor)
+				if err := proto.Unmarshal(bytea, props); err != nil {
+					return err
+				}
+				line["wire"] = wireView(props)
+				opts, err := actor.VerifWireSpawnOptions(sysB, props)
+				if err != nil {
+					return err
+				}
+				copyPID, err = sysB.Spawn(ctx, fmt.Sprintf("r%d", i), &probeActor{}, opts...)
+				return err
+			}()
+			if err != nil {
+				line["err"] = err.Error()
+				line["copy"] = obsLocal // placeholder, ignored when err is set
+				if _, ok := line["wire"]; !ok {
+					line["wire"] = map[string]any{}
+				}
+				nErr++
+			} else {
+				line["copy"] = observe(copyPID)
+			}
+			w.Raw(line)
+			stop(copyPID)
+			nReloc++
+		}
+
+		{
+			line := map[string]any{"path": "remote", "cfg": rawCases[i], "local": obsLocal, "err": "", "wire": map[string]any{}}
+			name := fmt.Sprintf("m%d", i)
+			var copyPID *actor.PID
+			_, err := sysA.Spawn(ctx, name, &probeActor{}, append(buildOptions(c), actor.WithHostAndPort("127.0.0.1", portB))...)
+			if err == nil {
+				copyPID, err = sysB.ActorOf(ctx, name)
+			}
+			if err == nil && !copyPID.IsLocal() {
+				err = fmt.Errorf("remote spawn: %s is not local to the hosting node", name)
+			}
+			if err != nil {
+				line["err"] = err.Error()
+				line["copy"] = obsLocal
+				nErr++
+			} else {
+				line["copy"] = observe(copyPID)
+			}
+			w.Raw(line)
+			stop(copyPID)
+			nRemote++
+		}
+		stop(local)
+	}
+	_ = sysA.Stop(ctx)
+	_ = sysB.Stop(ctx)
+	n := w.Count()
+	if err := w.Close(); err != nil {
+		fatal(err)
+	}
+	fmt.Printf("{\"cases\":%d,\"events\":%d,\"relocate\":%d,\"remote\":%d,\"errors\":%d}\n", len(cases), n, nReloc, nRemote, nErr)
+}
